@@ -204,6 +204,20 @@ def unit_mh_sample():
         if "samples" in env and isinstance(env.get("samples"), RowLog):
             w = env["samples"].writes[-1] if env["samples"].writes else (None, None)
             out.append(("row_i_holds_the_current_state", w[0] is not None and w[1] is x and core.as_z3_bool(w[0] == i) if w[0] is not None else False))
+        # the Metropolis step itself: ONE standard-normal draw per step, of the full shape and the dtype of the state (independent
+        # noise in every component of x0 whatever its rank), and the acceptance rule  log u_i < log p(proposal) - log p(state)
+        draws = [k for nm, k in ctx().calls[loop.head_ncalls:] if nm == "normal_draw"]
+        hx = head["x"]
+        out.append(("one_normal_draw_per_step_of_the_shape_and_dtype_of_the_state",
+                    len(draws) == 1 and tuple(draws[0]["shape"]) == tuple(hx._shape) and draws[0]["dtype"] is hx.dtype))
+        lpn, lpx = env.get("logpnext"), head["logpx"]
+        u = last_state.get("u")
+        if isinstance(lpn, st.Tensor) and lpn.kind == "sc" and isinstance(lpx, st.Tensor) and lpx.kind == "sc" and u is not None:
+            ratio = lpn.v.re - lpx.v.re
+            acc = z3.Or(ratio > 0, u._fn(i.e) < ratio)
+            out.append(("proposal_accepted_iff_log_u_i_lt_log_p_ratio", acc if x is xn else z3.Not(acc)))
+        else:
+            out.append(("proposal_accepted_iff_log_u_i_lt_log_p_ratio", False))
         return out
     stt.user_invariants = inv
 
@@ -213,14 +227,31 @@ def unit_mh_sample():
         c.assume(n.e >= 1)
         d = fresh_int("d")
         c.assume(d.e >= 1)
-        x0 = st.vec("xstart", (d,), (0,))
+        nb = fresh_int("nb")
+        c.assume(nb.e >= 1)
+        rank2 = c.choose(2, "rank_of_the_state") == 0
+        x0 = st.vec("xstart", (nb, d), (0, 1)) if rank2 else st.vec("xstart", (d,), (0,))
         pp = st.vec("pp", (2,), (0,))
         logp = kit.UserFn("logp", out_shape=(), vaxes=(), outs=("sc",))
         collect = c.choose(2, "collect") == 0
-        c.ghost["loop_variant"] = "collect" if collect else "burn"
+        c.ghost["loop_variant"] = ("collect" if collect else "burn") + ("2" if rank2 else "1")
         import torch
+        useq = kit.SeqTensor("u", n)
+        last_state["u"] = useq
+        o_randn, o_randn_like = torch.randn, torch.randn_like
+
+        def randn_(*shape, dtype=None, device=None, **kw):
+            r = o_randn(*shape, dtype=dtype, device=device)
+            c.calls.append(("normal_draw", dict(shape=tuple(r._shape), dtype=r.dtype)))
+            return r
+
+        def randn_like_(a, **kw):
+            r = o_randn_like(a)
+            c.calls.append(("normal_draw", dict(shape=tuple(r._shape), dtype=r.dtype)))
+            return r
         with kit.patched(torch, "empty", lambda shape, dtype=None, device=None: RowLog(shape, dtype, device)), \
-                kit.patched(torch, "log", lambda t: t, ), kit.patched(torch, "rand", lambda shape, dtype=None, device=None: kit.SeqTensor("u", shape[0])):
+                kit.patched(torch, "log", lambda t: t, ), kit.patched(torch, "rand", lambda shape, dtype=None, device=None: useq), \
+                kit.patched(torch, "randn", randn_), kit.patched(torch, "randn_like", randn_like_):
             out = rw.fn(logp, x0, (pp,), n, fresh_real("step_size"), collect)
         if collect:
             c.check("buffer_has_n_rows", out.shape[0] == n and out.shape[1:] == x0.shape)
